@@ -260,6 +260,12 @@ func genC20(g *Rng, tier string, emit func(Op)) {
 		emit(Op{"op": "safeprime-stop", "class": "safeprime-stop-drain", "key": "safeprime-stop", "label": "clean", "mode": "immediate", "send": i%2 == 0, "drain": true,
 			"bits": 20 + g.intn(24), "recvs": 1 + g.intn(3), "workers": runtime.GOMAXPROCS(0), "wait": 4000})
 	}
+	// the stop by send again, with fixed sizes (what a worker does with a result it holds at the
+	// moment of the stop depends on timing: many short runs)
+	for i := 0; i < 16; i++ {
+		emit(Op{"op": "safeprime-stop", "class": "safeprime-stop-drain-fixed", "key": "safeprime-stop", "label": "clean", "mode": "immediate", "send": true, "drain": true,
+			"bits": 20 + (i*7)%24, "recvs": 1 + i%3, "workers": runtime.GOMAXPROCS(0), "wait": 4000, "rep": i})
+	}
 	gor := []int{2, 8, 64}
 	procs := []int{4, 16, 1}
 
